@@ -314,7 +314,9 @@ class ConvolvedFluxes(object):
             # If any apertures are smaller than the defined min, raise error
             # (an aperture that equals the smallest one up to rounding, e.g.
             # from a log-spaced distance grid, is not too small)
-            if np.any(c.apertures < self.apertures.min() * (1. - 1.e-10)):
+            # (in double precision: for a table stored in single precision the
+            # factor would round to 1)
+            if np.any(c.apertures < self.apertures.min().astype(float) * (1. - 1.e-10)):
                 raise Exception("Aperture(s) requested too small")
 
             # Note that we have to be careful here because interp1d will drop
